@@ -1123,8 +1123,12 @@ class SymEval:
                 "list", "tuple") and len(args[0][1]) >= 2:
             return T.mk_max(args[0][1]) if name.endswith("max") else T.mk_min(args[0][1])
         if name in TRANSPARENT_CASTS and len(args) >= 1:
-            if name == "round" or len(args) == 1 or True:
-                return args[0]
+            if name == "round":
+                # only the repository's micro-second rounding idiom round(x, 6) is transparent (H4)
+                nd = T.const_value(args[1]) if len(args) > 1 else None
+                if nd is None or nd < 6:
+                    return None
+            return args[0]
         if method == "astype" and recv is not None:
             return recv
         if name in ("jax.numpy.logical_or", "numpy.logical_or") and len(args) == 2:
